@@ -14,6 +14,7 @@ package ops
 //@   ghostset objWrites = objWrites + 1
 //@   ghostset clobbers = clobbers + ite(old(diskHas)[name], 1, 0)
 //@   ghostset diskData = ite(err == nil, store(diskData, name, val(contents)), diskData)
+//@   ghostset lastWriteOK = (err == nil)
 //@   ensures[C10,C11] err == nil ==> diskHas[name]
 //@   ensures[C10,C11] forall(o, string, o != name ==> diskHas[o] == old(diskHas)[o]) && (old(diskHas)[name] ==> diskHas[name])
 
